@@ -2,6 +2,7 @@ import FFVerif.Props.C09
 import FFVerif.Pins.pinBasisArrayFinalize
 import FFVerif.Pins.pinFourElementTraces
 import FFVerif.Pins.pinErrorTransferMatrix
+import FFVerif.Pins.C09_cumulant_source_shape
 #print axioms FFVerif.C09.fourElementTraces_entries
 #print axioms FFVerif.C09.cumulant_general_eq_commutators
 #print axioms FFVerif.C09.cumulant_general_model
@@ -11,7 +12,7 @@ import FFVerif.Pins.pinErrorTransferMatrix
 #print axioms FFVerif.C09.first_order_symmetric
 #print axioms FFVerif.C09.K_row_col_zero
 #print axioms FFVerif.C09.cumulant_real
-#print axioms FFVerif.C09.cumulant_source_shape
 #print axioms FFVerif.Pins.pinBasisArrayFinalize
 #print axioms FFVerif.Pins.pinFourElementTraces
 #print axioms FFVerif.Pins.pinErrorTransferMatrix
+#print axioms FFVerif.C09.cumulant_source_shape
